@@ -4,6 +4,7 @@ import (
 	"fmt"
 	"reflect"
 	"runtime"
+	"sort"
 	"strings"
 
 	"0chain.net/chaincore/block"
@@ -833,7 +834,15 @@ func (msc *MinerSmartContract) createMagicBlock(
 		zap.Int64("view change", magicBlock.StartingRound),
 		zap.Int("dkg miners num", len(dkgMinersList.SimpleNodes)))
 
-	for _, v := range dkgMinersList.SimpleNodes {
+	// in a fixed order: an event is emitted per miner, and the event list of a
+	// block must not depend on map iteration
+	minerIDs := make([]string, 0, len(dkgMinersList.SimpleNodes))
+	for id := range dkgMinersList.SimpleNodes {
+		minerIDs = append(minerIDs, id)
+	}
+	sort.Strings(minerIDs)
+	for _, id := range minerIDs {
+		v := dkgMinersList.SimpleNodes[id]
 		n := node.Provider()
 		n.ID = v.ID
 		n.N2NHost = v.N2NHost
